@@ -104,6 +104,8 @@ func c05Run(c c05Case) *vlib.Failure {
 	m.flushedLeaf = nil
 	m.flushed, m.allocs, m.failAt, m.failErr = nil, 0, c.FailAt, nil
 	m.tempFail = c.TempFail
+	bootLeaves, _, _ := m.enumerate(boot.Address())
+	bootSlot := *(*uintptr)(unsafe.Pointer(&m.frameBytes(boot)[511*8]))
 	var err *kernel.Error
 	if pc := vlib.CatchFault(func() { err = setupPDTForKernel(uintptr(c.Offset)) }); pc.Panicked {
 		return vlib.Failf("building the kernel address space: %v", pc)
@@ -115,6 +117,31 @@ func c05Run(c c05Case) *vlib.Failure {
 		if m.cr3 != boot.Address() {
 			return vlib.Failf("setupPDTForKernel failed (%s) but the active address space changed", err.Message)
 		}
+		// the boot address space stays the active one: its recursive slot (borrowed while the
+		// new space is built) has to be back, and every page has to translate as before
+		if slot := *(*uintptr)(unsafe.Pointer(&m.frameBytes(boot)[511*8])); slot != bootSlot {
+			return vlib.Failf("setupPDTForKernel failed (%s) and left the recursive entry of the boot address space, which stays active, pointing at %s instead of its own table", err.Message, m.ff(uint64(slot&vmFrameMask)>>12))
+		}
+		nowLeaves, _, bogus := m.enumerate(boot.Address())
+		if bogus != "" {
+			return vlib.Failf("setupPDTForKernel failed (%s); boot address space: %s", err.Message, bogus)
+		}
+		tp := uint64(vmCanon(tempMappingAddr) >> 12)
+		for p, l := range bootLeaves {
+			if nl, ok := nowLeaves[p]; p != tp && (!ok || nl != l) {
+				return vlib.Failf("setupPDTForKernel failed (%s) and page %#x of the boot address space, which stays active, no longer translates as before", err.Message, p)
+			}
+		}
+		for p := range nowLeaves {
+			if _, ok := bootLeaves[p]; !ok && p != tp {
+				return vlib.Failf("setupPDTForKernel failed (%s) and left page %#x mapped in the boot address space, which stays active", err.Message, p)
+			}
+		}
+		for p, f := range reserved {
+			if a, ok := m.hw(uintptr(p) << 12); !ok || uint64(a>>12) != f {
+				return vlib.Failf("setupPDTForKernel failed (%s) and the reserved page %#x no longer translates to frame %#x in the boot address space (now %#x, mapped=%v)", err.Message, p, f, uint64(a>>12), ok)
+			}
+		}
 		return nil
 	}
 	if err != nil {
@@ -123,6 +150,9 @@ func c05Run(c c05Case) *vlib.Failure {
 	newRoot := kernelPDT.pdtFrame
 	if m.cr3 != newRoot.Address() || m.cr3 == boot.Address() {
 		return vlib.Failf("after initialisation the active root is %s, the kernel's new root is %s (boot root %s)", m.ff(uint64(m.cr3>>12)), m.ff(uint64(newRoot)), m.ff(uint64(boot)))
+	}
+	if e := *(*uintptr)(unsafe.Pointer(&m.frameBytes(newRoot)[511*8])); e != newRoot.Address()|uintptr(FlagPresent|FlagRW) {
+		return vlib.Failf("the recursive entry of the kernel's new top-level table holds %#x besides its own frame, want exactly present|writable: bits of the frame's previous contents survive", uint64(e)&^uint64(vmFrameMask))
 	}
 	got, _, bogus := m.enumerate(m.cr3)
 	if bogus != "" {
